@@ -378,6 +378,7 @@ def run_server(spec, *, lines=False, horizon=20000.0, max_steps=800_000, max_sta
         servlet = build_servlet(tree)
         server = Server(servlet, capacity=spec['capacity'])
         for cyc in range(cycles):
+            log_start = len(LOG)
             base_threads = set(t.idx for t in sim.threads if t.state != DONE)
             try:
                 server.__enter__()
@@ -433,7 +434,7 @@ def run_server(spec, *, lines=False, horizon=20000.0, max_steps=800_000, max_sta
             except BaseException as e:
                 obs.exit_exc = e
             alive = [(t.idx, t.name) for t in sim.threads if t.state != DONE and t.idx not in base_threads]
-            obs.cycle_info.append({'idle_backlog': idle_backlog, 'gather_alive': gather_alive, 'alive_after_exit': alive, 'backlog_after_exit': server.backlog})
+            obs.cycle_info.append({'idle_backlog': idle_backlog, 'gather_alive': gather_alive, 'alive_after_exit': alive, 'backlog_after_exit': server.backlog, 'log_range': (log_start, len(LOG))})
             if obs.exit_exc is not None:
                 break
         return obs
